@@ -856,6 +856,125 @@ fn main() {
 			}
 		}
 	}
+
+	// ---- TWO faults in one transaction: the verdict must be the FIRST failing stage of the code's
+	// order (Transaction::validate: features, then the body - weight, NRD duplicates, sorted,
+	// cut-through, range proofs, signatures -, then the kernel sums; validate_read: body checks
+	// first, features last)
+	{
+		use grin_core::core::transaction::Inputs;
+		use grin_core::core::CommitWrapper;
+		let base = transaction::aggregate(&txs[..3]).unwrap();
+		let expect = |out: &mut Out, what: &str, got: String, want: &str, bad: &mut u64, cases: &mut u64| {
+			*cases += 1;
+			out.line(&format!("c01 tx two-faults {}", what), &got);
+			if got != format!("err:{}", want) {
+				*bad += 1;
+				out.raw(&format!("#ORACLE-FAIL C01 two faults in one transaction ({}): the first failing stage of the code's order is {} but the verdict is {}", what, want, got));
+			}
+		};
+		let read_v = |t: &Transaction| -> String {
+			match catch(std::panic::AssertUnwindSafe(|| t.validate_read())) {
+				Ok(Ok(_)) => "ok".into(),
+				Ok(Err(e)) => format!("err:{}", format!("{:?}", e).chars().take_while(|c| c.is_alphanumeric()).collect::<String>()),
+				Err(_) => "panic".into(),
+			}
+		};
+		let bad_sig = |t: &mut Transaction| {
+			let s = t.body.kernels[1].excess_sig.clone();
+			t.body.kernels[0].excess_sig = s;
+			t.body.kernels.sort_unstable();
+		};
+		let swap_proofs = |t: &mut Transaction| {
+			let p0 = t.body.outputs[0].proof;
+			t.body.outputs[0].proof = t.body.outputs[1].proof;
+			t.body.outputs[1].proof = p0;
+		};
+		let w = Weighting::AsTransaction;
+		// signature + unsorted outputs
+		let mut t = base.clone();
+		bad_sig(&mut t);
+		t.body.outputs.swap(0, 1);
+		expect(&mut out, "signature+unsorted-outputs validate", verdict_tx_w(&t, w), "Serialization", &mut bad, &mut cases);
+		// signature + swapped range proofs
+		let mut t = base.clone();
+		bad_sig(&mut t);
+		swap_proofs(&mut t);
+		expect(&mut out, "signature+rangeproofs-swapped validate", verdict_tx_w(&t, w), "Secp", &mut bad, &mut cases);
+		// kernel sums (fee+1) + signature: the fee is signed, so a changed fee is a bad signature first
+		let mut t = base.clone();
+		if let KernelFeatures::Plain { fee } = t.body.kernels[0].features {
+			t.body.kernels[0].features = KernelFeatures::Plain { fee: (fee.fee() as u32 + 1).into() };
+			t.body.kernels.sort_unstable();
+			expect(&mut out, "fee+1 (signature, then kernel sums) validate", verdict_tx_w(&t, w), "IncorrectSignature", &mut bad, &mut cases);
+		}
+		// cut-through (spends an output it creates) + swapped range proofs
+		let mut t = base.clone();
+		{
+			let own = t.body.outputs[0].commitment();
+			let mut v: Vec<CommitWrapper> = t.inputs().into();
+			v.push(CommitWrapper::from(own));
+			v.sort_unstable();
+			t.body.inputs = Inputs::CommitOnly(v);
+			swap_proofs(&mut t);
+		}
+		expect(&mut out, "cut-through+rangeproofs-swapped validate", verdict_tx_w(&t, w), "CutThrough", &mut bad, &mut cases);
+		expect(&mut out, "cut-through+rangeproofs-swapped validate_read", read_v(&t), "CutThrough", &mut bad, &mut cases);
+		// overweight (a weight limit below the body) + the same input twice
+		let mut t = base.clone();
+		{
+			let mut v: Vec<CommitWrapper> = t.inputs().into();
+			let first = v[0].clone();
+			v.push(first);
+			v.sort_unstable();
+			t.body.inputs = Inputs::CommitOnly(v);
+		}
+		expect(&mut out, "overweight+input-twice validate(AsLimitedTransaction(1))", verdict_tx_w(&t, Weighting::AsLimitedTransaction(1)), "TooHeavy", &mut bad, &mut cases);
+		expect(&mut out, "input-twice+signature validate", { let mut t2 = t.clone(); bad_sig(&mut t2); verdict_tx_w(&t2, w) }, "Serialization", &mut bad, &mut cases);
+		// a coinbase-flagged output + unsorted outputs: `validate` looks at the features first,
+		// `validate_read` at the body first
+		let mut t = base.clone();
+		t.body.outputs[0].identifier.features = OutputFeatures::Coinbase;
+		t.body.outputs.sort_unstable();
+		t.body.outputs.swap(0, 1);
+		expect(&mut out, "coinbase-flagged-output+unsorted-outputs validate", verdict_tx_w(&t, w), "InvalidOutputFeatures", &mut bad, &mut cases);
+		expect(&mut out, "coinbase-flagged-output+unsorted-outputs validate_read", read_v(&t), "Serialization", &mut bad, &mut cases);
+		// the same pairs as a block (Block::validate: body first, then lock heights / coinbase / sums)
+		let prev = grin_core::core::BlockHeader::default();
+		let fees: u64 = txs[..3].iter().map(|t| t.fee()).sum();
+		let rw = reward::output(&kc, &ProofBuilder::new(&kc), &key(11, 0), fees, false).unwrap();
+		if let Ok(blk) = Block::new(&prev, &txs[..3], Difficulty::min_dma(), rw) {
+			let po = prev.total_kernel_offset();
+			let mut expect_b = |out: &mut Out, what: &str, b: &Block, want: &str| {
+				cases += 1;
+				// keep one level of nesting: `Transaction(Serialization)` / `Transaction(IncorrectSignature)`
+				let got = match catch(std::panic::AssertUnwindSafe(|| b.validate(&po))) {
+					Ok(Ok(_)) => "ok".to_string(),
+					Ok(Err(e)) => format!("err:{}", format!("{:?}", e).chars().take_while(|c| c.is_alphanumeric() || *c == '(').collect::<String>().trim_end_matches('(').replace('(', ":")),
+					Err(_) => "panic".to_string(),
+				};
+				out.line(&format!("c01 block two-faults {}", what), &got);
+				if got != format!("err:{}", want) {
+					bad += 1;
+					out.raw(&format!("#ORACLE-FAIL C01 two faults in one block ({}): the first failing stage of the code's order is {} but the verdict is {}", what, want, got));
+				}
+			};
+			let mut b = blk.clone();
+			b.body.kernels[0].excess_sig = blk.kernels()[1].excess_sig.clone();
+			b.body.kernels.sort_unstable();
+			b.body.outputs.swap(0, 1);
+			expect_b(&mut out, "signature+unsorted-outputs", &b, "Transaction:Serialization:SortError");
+			let mut b = blk.clone();
+			b.body.kernels[0].excess_sig = blk.kernels()[1].excess_sig.clone();
+			b.body.kernels.sort_unstable();
+			// the coinbase output loses its flag: coinbase sum wrong - after the signature
+			if let Some(i) = b.body.outputs.iter().position(|o| o.is_coinbase()) {
+				b.body.outputs[i].identifier.features = OutputFeatures::Plain;
+				b.body.outputs.sort_unstable();
+				expect_b(&mut out, "signature+coinbase-flag-removed", &b, "Transaction:IncorrectSignature");
+			}
+		}
+	}
 	out.raw(&format!("#STAT c01 weightings per transaction verdict={}", weightings().len()));
 	out.raw(&format!("#STAT c01 corruption cases={} accepted={}", cases, bad));
 	out.flush();
